@@ -3,6 +3,9 @@ package csim
 import (
 	"sync"
 
+	dbm "github.com/dappledger/AnnChain/gemmill/modules/go-db"
+	sm "github.com/dappledger/AnnChain/gemmill/state"
+
 	"github.com/dappledger/AnnChain/gemmill/go-wire"
 	"github.com/dappledger/AnnChain/gemmill/modules/go-clist"
 	"github.com/dappledger/AnnChain/gemmill/types"
@@ -38,4 +41,15 @@ func ReloadValSet(vs *types.ValidatorSet) *types.ValidatorSet {
 	wire.ReadBinaryBytes(b, &out)
 	_ = err
 	return out
+}
+
+// ReloadThroughState stores a State holding the given validator set with the real State.Save and reads it back
+// with the real LoadState: the set a restarted node works with.
+func ReloadThroughState(gen *types.GenesisDoc, vs *types.ValidatorSet, lastHeight int64) *types.ValidatorSet {
+	db := dbm.NewMemDB()
+	st := sm.MakeGenesisState(db, gen)
+	st.Validators = vs.Copy()
+	st.LastBlockHeight = lastHeight
+	st.Save()
+	return sm.LoadState(db).Validators
 }
